@@ -4,3 +4,10 @@ HARNESSES = {
     'DisabledPath': dict(split={'call': 19}),
 }
 MERGE = ['vph/ref.premul']
+
+BOUNDS = {
+    'state': 'arbitrary: 64 symbolic colour registers, 64 symbolic float32 number registers, symbolic palette, selectors as arbitrary bytes (values >= 64 included), symbolic LOD',
+    'StartPathGradient': 'gradient-encoding register values with at most `stops` stops (quick 2, thorough 4), every CBASE/NBASE/shape/spread',
+    'StartPathFlat': 'raster heights 1..256',
+}
+OUTSIDE = 'gradients with more stops than the bound (same loop body); gradients with 0 or 1 stops (the property is silent); the pixel-to-gradient matrix is C15; colour resolution is C09'
